@@ -545,10 +545,14 @@ def run(chk, replay=None):
         chk.broken.append("tie C13: " + pr + " (compared with the repaired model)")
     chk.proof_leg(["Geom/ContainsCheck.vo"], "Properties/C13.v", ["Geom/Contains_proofs.v"], "Properties.C13")
     chk.assumptions += [
-        "isize is 64 bits; arithmetic overflow is modelled as a distinct outcome (Ovf) and the theorems exclude it by |coordinate| < 2^30 (and width < 2^30 for paths)",
-        "C13_polygon is proved for ALL vertex lists against the non-zero-winding closed region; equality with the even-odd region is proved when the signed crossing count is within {-1,0,1}; that simple polygons satisfy this (Jordan curve theorem) is NOT proved -- the correspondence run checks the impl against the even-odd region on every generated simple polygon",
+        "isize is 64 bits; integer overflow is modelled as a distinct outcome (Ovf): C13_polygon holds for every returned answer with no coordinate bound, "
+        "and C13_polygon_no_overflow excludes Ovf for |coordinate| < 2^62 (repaired code, i128 cross product); paths: |coordinate| < 2^62 and width < 2^62",
+        "C13_polygon is proved for ALL vertex lists against the non-zero-winding closed region (the code is a winding-number test); equality with the even-odd region is proved "
+        "when the signed crossing count is within {-1,0,1}; that simple polygons satisfy this bound (Jordan curve theorem, C13_simple_winding_bound_full) is NOT proved -- "
+        "the correspondence run checks the impl against the even-odd region on every generated simple polygon, exhaustively on small grids",
         "simplicity of a polygon is decided by Geom/ContainsSpec.simpleb inside Coq and independently by the generator; the two are compared",
         "the winding counter itself (isize += 1) cannot overflow for vertex lists shorter than 2^63",
+        "which model of Polygon::contains the impl is compared with is read from layout21raw/src/geom.rs on every run: %s" % ("code as found (poly_contains_orig)" if ORIG else "repaired code (poly_contains)"),
     ]
     if not getattr(chk, "model_ok", False):
         return
